@@ -29,6 +29,7 @@ RULE = (
     ' Round 8: `wake_payloads` sequences; `memstream` kind (real stream objects, the link dies with an OS error while the k-th command is written).'
     ' Round 9: `mqtt` kind (broker connection lost around a wake); `reconnect=with-exc` (the error itself leaves the async-with block).'
     ' Round 10: requests and reports for the parked key between parking and wake (enumerated).'
+    ' Round 11: every internal message of the sleeping nodes that is not their wake announcement (e.g. the post-sleep notification) among the `between` events.'
 )
 ASSUMPTIONS = [
     "faults are raised by the transport's write before anything is recorded (an all-or-nothing write)",
@@ -54,7 +55,8 @@ BETWEEN = tuple(f"0;255;3;0;{t};x\n" for t in range(0, 34) if t != 2) + tuple(f"
     # what the application does after the failed flush: asks the node for the state it failed to switch, sends other commands,
     # saves and reloads the registry (node objects are replaced)
     "@send-req", "@send-req-ack", "@send-internal", "@reload", "@save",
-)
+    # every internal message of the sleeping nodes themselves that is not their wake announcement (22 under 2.0/2.1, 32 under 2.2)
+) + tuple(f"{n};255;3;0;{t};{p}\n" for n in (1, 2) for t in range(0, 34) if t not in (2, 22, 32) for p in ("500",))
 
 
 def budgets(tier: str) -> dict:
